@@ -328,46 +328,17 @@ func (root *Root) resolveList(
 			rlist = append(rlist, v)
 		}
 		result = rlist
-	case []string:
-		rlist := make([]interface{}, 0, len(list))
-		for _, s := range list {
-			rlist = append(rlist, s)
-		}
-		result = rlist
-	case []int:
-		rlist := make([]interface{}, 0, len(list))
-		for _, i := range list {
-			rlist = append(rlist, i)
-		}
-		result = rlist
-	case []int64:
-		rlist := make([]interface{}, 0, len(list))
-		for _, i := range list {
-			rlist = append(rlist, i)
-		}
-		result = rlist
-	case []bool:
-		rlist := make([]interface{}, 0, len(list))
-		for _, b := range list {
-			rlist = append(rlist, b)
-		}
-		result = rlist
-	case []float32:
-		rlist := make([]interface{}, 0, len(list))
-		for _, f := range list {
-			rlist = append(rlist, f)
-		}
-		result = rlist
-	case []float64:
-		rlist := make([]interface{}, 0, len(list))
-		for _, f := range list {
-			rlist = append(rlist, f)
-		}
-		result = rlist
-	case []time.Time:
-		rlist := make([]interface{}, 0, len(list))
-		for _, f := range list {
-			rlist = append(rlist, f)
+	case []string, []int, []int64, []bool, []float32, []float64, []time.Time:
+		// Typed slices of leaf values. Each element is resolved like the
+		// elements of any other list so it is coerced to the declared type.
+		rv := reflect.ValueOf(obj)
+		rlist := make([]interface{}, 0, rv.Len())
+		var v interface{}
+		for i := 0; i < rv.Len(); i++ {
+			v, ea2 = root.resolve(rv.Index(i).Interface(), vars, field, lt, depth)
+			Errors(ea2).in(i)
+			ea = append(ea, ea2...)
+			rlist = append(rlist, v)
 		}
 		result = rlist
 	default:
